@@ -29,7 +29,7 @@ ASSUMPTIONS = [
     'binned wavelength width = 10000 * wavenumber width / centre^2 (first-order conversion at the bin centre, as used for observations)',
     'the reload clause compares constructor-level parameters that the writers store; opacities stay registered in the caches between write and reload',
 ]
-REQUIRED = {'part:retrieval': 0.06, 'part:dict': 0.08, 'part:spectrum': 0.08, 'part:model': 0.08}
+REQUIRED = {'part:retrieval': 0.04, 'part:dict': 0.08, 'part:spectrum': 0.08, 'part:model': 0.08}
 # coverage-guided extra (thorough tier): pure-Python taurex modules on this property's path, instrumented by atheris
 FUZZ = {'include': ['taurex.output', 'taurex.util.output', 'taurex.util.hdf5', 'taurex.util.util', 'taurex.binning'], 'runs': 8000, 'workers': 4}
 
@@ -63,7 +63,7 @@ def _tree(depth):
 
 @st.composite
 def _case(draw):
-    part = draw(st.sampled_from(['dict', 'model', 'spectrum', 'retrieval', 'dict', 'model']))
+    part = draw(S.pick(['dict', 'model', 'spectrum', 'retrieval', 'dict', 'model']))
     c = {'part': part}
     if part == 'retrieval':
         from vlib.props import c09
